@@ -183,14 +183,22 @@ Definition in_case_fragment (k : case) (p : packet) : bool :=
   && packet_in_fragment p && ipver_eqb (pk_ver p) (x_ver k)
   && C09.Spec.entry_mark_ok (x_cfg_ipt k) p.
 
-(* check_case k = (the checker MODEL predicts the real checker's status on every probe,
+(* the IR model of C11 on the MODEL of extractTiers / extractProfiles (bpf_rules), with the LPM lookup of Bpf.v *)
+Definition bpf_model_case_vd (k : case) (p : packet) : vd :=
+  let c := bpf_case k in
+  bpf_vd (model_verdict fixed_variant (x_ver k) (bpf_rules no_name no_name (x_tiers k) (x_profiles k))
+            (set_lookup (C11.Spec.env_of c [])) (pstate_of p)).
+
+(* check_case k = (the checker MODEL predicts the real checker's status on every probe, and - inside the fragment -
+                     C11's IR model on this file's model of extractTiers predicts the real BPF program's verdict,
                    on every probe of the common fragment the four REAL verdicts agree and are the reference verdict) *)
 Definition check_case (k : case) : bool * bool :=
   let e := case_env k in
   let rows := zip3 (x_packets k) (bpf_vds k) (x_chk k) in
   ( Nat.eqb (List.length rows) (List.length (x_packets k))
-    && forallb (fun row => match row with (p, _, code) =>
-         N.eqb (cres_code (chk_endpoint (x_kv k) (x_sets k) (x_tiers k) (x_profiles k) p)) code end) rows,
+    && forallb (fun row => match row with (p, bv, code) =>
+         N.eqb (cres_code (chk_endpoint (x_kv k) (x_sets k) (x_tiers k) (x_profiles k) p)) code
+         && (negb (x_guard k) || vd_eqb (bpf_model_case_vd k p) bv) end) rows,
     forallb (fun row => match row with (p, bv, code) =>
          negb (in_case_fragment k p)
          || ok_agree (vd_of_ref (ref_verdict (x_ver k) (x_sets k) (x_tiers k) (x_profiles k) p))
